@@ -171,7 +171,13 @@ impl TypedReprRef<'_> {
                 RefLarge(words) => {
                     let mut buffer = Buffer::from(words);
                     debug_assert_zero!(add::sub_one_in_place(&mut buffer));
-                    words_to_le_bytes::<true>(&buffer)
+                    let mut bytes = words_to_le_bytes::<true>(&buffer);
+                    if buffer.last().unwrap().leading_zeros() % 8 == 0 {
+                        // add extra byte representing the sign, because the top bit of
+                        // (magnitude - 1) is used (or its top word has been cleared by the borrow)
+                        bytes.push(0xff);
+                    }
+                    return bytes;
                 }
             }
         } else {
@@ -219,7 +225,13 @@ impl TypedReprRef<'_> {
                 RefLarge(words) => {
                     let mut buffer = Buffer::from(words);
                     debug_assert_zero!(add::sub_one_in_place(&mut buffer));
-                    words_to_be_bytes::<true>(&buffer)
+                    let mut bytes = words_to_be_bytes::<true>(&buffer);
+                    if buffer.last().unwrap().leading_zeros() % 8 == 0 {
+                        // add extra byte representing the sign, because the top bit of
+                        // (magnitude - 1) is used (or its top word has been cleared by the borrow)
+                        bytes.insert(0, 0xff);
+                    }
+                    return bytes;
                 }
             }
         } else {
